@@ -1,6 +1,6 @@
 (* C06 — A layer tarball faithfully and canonically serialises the built
    filesystem.  Property theorems only; proofs are in Proofs/TarProofs.v. *)
-From Apko Require Import Base.Prelude Model.Tar Spec.TarSpec Proofs.TarProofs.
+From Apko Require Import Base.Prelude Model.Tar Spec.TarSpec Proofs.TarProofs Proofs.TarRoundtrip Proofs.TarOrder.
 From Coq Require Import Sorting.Sorted.
 Open Scope string_scope. Open Scope list_scope.
 
@@ -9,6 +9,43 @@ Open Scope string_scope. Open Scope list_scope.
 Theorem c06_validator_decides : forall us gs t es, validate us gs t es = [] <-> Faithful us gs t es.
 Proof. exact validate_iff. Qed.
 Print Assumptions c06_validator_decides.
+
+(* c06_extract_walk: for EVERY tree in the envelope [wf_forest] — directories,
+   regular files (empty included), symlinks (dangling included), character
+   devices; any depth, names, mode bits (setuid/setgid/sticky), uid/gid, xattrs
+   on files and directories, mtimes; distinct child names; no additional
+   hard-link names — and every passwd/group table, the reference extractor
+   applied to the walk returns exactly the tree (children in ReadDir order).
+   Every attribute is a field of both records: dropping one breaks the equation. *)
+Theorem c06_extract_walk : forall ev f, wf_forest f = true -> extract (walk ev f) = Ok (canon_forest f).
+Proof. exact extract_walk. Qed.
+Print Assumptions c06_extract_walk.
+
+Example c06_extract_walk_example :
+  let m := {| m_mode := 2541 (* 04755 *); m_uid := 1000; m_gid := 42; m_mtime := 1700000000; m_mnsec := 7;
+              m_xattrs := [("user.k", "v")] |} in
+  let f := [("usr", Dir m [("z", File m0 (LSym "../nowhere") None); ("a", File m (LReg 0 0) None)]);
+            ("dev", Dir m [("null", File m0 (LChr 1 3) None)])] in
+  wf_forest f = true /\ extract (walk env_nohdr f) = Ok (canon_forest f) /\ forest_eqb (canon_forest f) f = false.
+Proof. vm_compute. repeat split; reflexivity. Qed.
+
+(* c06_walk_complete_nodup (order and uniqueness part): for every tree with
+   distinct child names — hard links or not — the walk's paths are strictly
+   increasing in the fixed order (component-wise, names bytewise), hence each
+   path is listed once, siblings are sorted, and a directory precedes
+   everything beneath it ([p] < [p ++ x :: s]).  That every path of the tree IS
+   listed follows inside the envelope from c06_extract_walk (the extractor
+   creates one node per entry and returns the whole tree). *)
+Theorem c06_walk_complete_nodup : forall ev f, wf_names_forest f = true ->
+  StronglySorted path_lt (map e_path (walk ev f)) /\
+  Sorted path_lt (map e_path (walk ev f)) /\
+  NoDup (map e_path (walk ev f)).
+Proof. exact walk_sorted_nodup. Qed.
+Print Assumptions c06_walk_complete_nodup.
+
+Theorem c06_dir_before_contents : forall p x s, path_lt p (p ++ x :: s).
+Proof. exact dir_before_contents. Qed.
+Print Assumptions c06_dir_before_contents.
 
 (* Uname/Gname of every emitted entry are a passwd/group name of its numeric id
    (the one of the last entry with that id), and absent exactly when the id has
